@@ -127,8 +127,8 @@ def grpStep (st : List (List (List (Pt Int))) × List (List (Pt Int))) (r : List
 def grpFin (st : List (List (List (Pt Int))) × List (List (Pt Int))) : Geom Int :=
   if st.1.isEmpty then .polygon st.2 else .multiPolygon (st.1 ++ [st.2])
 
-theorem pgLoop_done (f : Nat) (mp : List (List (List (Pt Int)))) (p : List (List (Pt Int))) (s : GD)
-    (h : s.ws = []) : pgLoop oriInt f mp p s = (.ok (grpFin (mp, p)), s) := by
+theorem pgLoop_done (ori : List (Pt Int) → Int) (f : Nat) (mp : List (List (List (Pt Int)))) (p : List (List (Pt Int))) (s : GD)
+    (h : s.ws = []) : pgLoop ori f mp p s = (.ok (grpFin (mp, p)), s) := by
   cases f <;> simp [pgLoop, GD.done, h, grpFin] <;> split <;> rfl
 
 theorem encRings_cons_ok {c c' : Cur} {r : List (Pt Int)} {rs : List (List (Pt Int))} {ws : List W}
@@ -148,20 +148,22 @@ theorem encRings_cons_ok {c c' : Cur} {r : List (Pt Int)} {rs : List (List (Pt I
   · cases h
 
 /-- `decodePolygon`'s loop on the words of `encRings` ends in the folded grouping state. -/
-theorem pgLoop_encRings : ∀ (rings : List (List (Pt Int))) (c c' : Cur) (ws : List W) (s : GD) (fuel : Nat)
+theorem pgLoop_encRings (ori : List (Pt Int) → Int) : ∀ (rings : List (List (Pt Int))) (c c' : Cur) (ws : List W) (s : GD) (fuel : Nat)
     (mp : List (List (List (Pt Int)))) (p : List (List (Pt Int))),
     InStep c s → (∀ r ∈ rings, ringOK r = true ∧ ringNoDupClose r = true) →
+    (∀ r ∈ rings, ori r = oriInt r) →
     encRings c rings = .ok (c', ws) → s.ws = ws → ws.length ≤ fuel →
-    (pgLoop oriInt fuel mp p s).1 = .ok (grpFin (rings.foldl grpStep (mp, p))) := by
+    (pgLoop ori fuel mp p s).1 = .ok (grpFin (rings.foldl grpStep (mp, p))) := by
   intro rings
   induction rings with
   | nil =>
-    intro c c' ws s fuel mp p _ _ he hw _
+    intro c c' ws s fuel mp p _ _ _ he hw _
     simp only [encRings, Res.ok.injEq, Prod.mk.injEq] at he
-    rw [pgLoop_done _ _ _ _ (by rw [hw, ← he.2])]
+    rw [pgLoop_done _ _ _ _ _ (by rw [hw, ← he.2])]
     rfl
   | cons r rs ih =>
-    intro c c' ws s fuel mp p hs hall he hw hf
+    intro c c' ws s fuel mp p hs hall hori he hw hf
+    have hor : ori r = oriInt r := hori r (by simp)
     obtain ⟨c1, w1, w2, h1, h2, rfl⟩ := encRings_cons_ok he
     have hr := hall r (by simp)
     obtain ⟨s1, s2, q, t, hdec, hcmd, hncl, hreq, hin2, hws2, hcnt2, hlen⟩ :=
@@ -174,14 +176,15 @@ theorem pgLoop_encRings : ∀ (rings : List (List (Pt Int))) (c c' : Cur) (ws : 
         cases w1 with
         | nil => simp at hlen
         | cons _ _ => rfl
-      have hstep : pgLoop oriInt (f + 1) mp p s =
-          pgLoop oriInt f (grpStep (mp, p) r).1 (grpStep (mp, p) r).2 s2 := by
+      have hstep : pgLoop ori (f + 1) mp p s =
+          pgLoop ori f (grpStep (mp, p) r).1 (grpStep (mp, p) r).2 s2 := by
         rw [pgLoop]
         simp only [hnd, Bool.false_eq_true, if_false, hdec, bindD, hcmd]
-        simp only [hncl, cClosePath, and_self, if_true, hreq, grpStep]
+        simp only [hncl, cClosePath, and_self, if_true, hreq, grpStep, hor]
         split <;> [skip; split] <;> rfl
       rw [hstep, List.foldl_cons]
-      apply ih c1 c' w2 s2 f _ _ hin2 (fun x hx => hall x (by simp [hx])) h2 hws2
+      apply ih c1 c' w2 s2 f _ _ hin2 (fun x hx => hall x (by simp [hx]))
+        (fun x hx => hori x (by simp [hx])) h2 hws2
       simp only [List.length_append] at hf; omega
 
 /-! ### regrouping by orientation -/
@@ -352,10 +355,11 @@ theorem ringOK_ne_nil {r : List (Pt Int)} (h : ringOK r = true) : r ≠ [] := by
 -- `i32_zero` comes from C03Line.
 
 /-- A non-empty list of rings of the quantifier decodes to the grouping of those rings. -/
-theorem decode_rings (rings : List (List (Pt Int))) (hne : rings ≠ [])
-    (hall : ∀ r ∈ rings, ringOK r = true ∧ ringNoDupClose r = true) (a : Nat) :
+theorem decode_rings (ori : List (Pt Int) → Int) (rings : List (List (Pt Int))) (hne : rings ≠ [])
+    (hall : ∀ r ∈ rings, ringOK r = true ∧ ringNoDupClose r = true)
+    (hori : ∀ r ∈ rings, ori r = oriInt r) (a : Nat) :
     ∃ c' ws, encRings cur0 rings = .ok (c', ws) ∧ ws ≠ [] ∧
-      (decodeGeometryIter oriInt tPolygon ws a).1 = .ok (grpFin (rings.foldl grpStep ([], []))) := by
+      (decodeGeometryIter ori tPolygon ws a).1 = .ok (grpFin (rings.foldl grpStep ([], []))) := by
   obtain ⟨c', ws, he⟩ := encRings_ok rings cur0 (fun r hr => ringOK_ne_nil (hall r hr).1)
   have hin : InStep cur0 { ws := ws, count := ws.length, used := 0, prev := ⟨0, 0⟩, alloc := a } := by
     refine ⟨?_, ?_, (by decide : ptOK (⟨0, 0⟩ : Pt Int) = true), by simp⟩ <;> simp [cur0, i32_zero]
@@ -370,7 +374,7 @@ theorem decode_rings (rings : List (List (Pt Int))) (hne : rings ≠ [])
       simp only [List.length_append]; omega
   refine ⟨c', ws, he, ?_, ?_⟩
   · intro h0; rw [h0] at hlen; simp at hlen
-  · have h := pgLoop_encRings rings cur0 c' ws _ ws.length [] [] hin hall he rfl (Nat.le_refl _)
+  · have h := pgLoop_encRings ori rings cur0 c' ws _ ws.length [] [] hin hall hori he rfl (Nat.le_refl _)
     unfold decodeGeometryIter
     simp only [show ¬ ws.length < 2 by omega, if_false, tPolygon, tPoint, tLineString, decodePolygon]
     simpa using h
@@ -412,19 +416,21 @@ theorem boundRing_ok (a b : Pt Int) (h : geomWF (.bound a b) = true) :
 /-! ### the theorems -/
 
 /-- Round trip of every kind of the quantifier, from any value of the allocation counter. -/
-theorem geometry_roundtrip_iter (g : Geom Int) (h : geomWF g = true) (hd : geomNoDupClose g = true) (a : Nat) :
+theorem geometry_roundtrip_iter_ori (ori : List (Pt Int) → Int) (g : Geom Int) (h : geomWF g = true)
+    (hd : geomNoDupClose g = true) (hori : ∀ r ∈ ringsOf g, ori r = oriInt r) (a : Nat) :
     ∃ t ws, encodeGeometry g = .ok (t, ws) ∧ ws ≠ [] ∧
-      (decodeGeometryIter oriInt t ws a).1 = .ok (normG g) := by
+      (decodeGeometryIter ori t ws a).1 = .ok (normG g) := by
   cases g with
-  | point p => exact roundtrip_lines _ h trivial a
-  | multiPoint ps => exact roundtrip_lines _ h trivial a
-  | lineString l => exact roundtrip_lines _ h trivial a
-  | multiLineString ls => exact roundtrip_lines _ h trivial a
+  | point p => exact roundtrip_lines ori _ h trivial a
+  | multiPoint ps => exact roundtrip_lines ori _ h trivial a
+  | lineString l => exact roundtrip_lines ori _ h trivial a
+  | multiLineString ls => exact roundtrip_lines ori _ h trivial a
   | collection gs => simp [geomWF] at h
   | ring r =>
     simp only [geomWF] at h
     simp only [geomNoDupClose] at hd
-    obtain ⟨c', ws, he, hne, hdec⟩ := decode_rings [r] (by simp) (by simpa using ⟨h, hd⟩) a
+    obtain ⟨c', ws, he, hne, hdec⟩ := decode_rings ori [r] (by simp) (by simpa using ⟨h, hd⟩)
+      (by simpa [ringsOf] using hori) a
     obtain ⟨c1, w1, w2, h1, h2, rfl⟩ := encRings_cons_ok he
     simp only [encRings, Res.ok.injEq, Prod.mk.injEq] at h2
     obtain ⟨rfl, rfl⟩ := h2
@@ -435,7 +441,8 @@ theorem geometry_roundtrip_iter (g : Geom Int) (h : geomWF g = true) (hd : geomN
       simp [grpStep, grpFin, normG]
   | bound p q =>
     obtain ⟨hr, hn⟩ := boundRing_ok p q h
-    obtain ⟨c', ws, he, hne, hdec⟩ := decode_rings [boundRing p q] (by simp) (by simpa using ⟨hr, hn⟩) a
+    obtain ⟨c', ws, he, hne, hdec⟩ := decode_rings ori [boundRing p q] (by simp) (by simpa using ⟨hr, hn⟩)
+      (by simpa [ringsOf] using hori) a
     refine ⟨tPolygon, ws, ?_, hne, ?_⟩
     · simp [encodeGeometry, he, Res.map]
     · rw [hdec]
@@ -453,7 +460,7 @@ theorem geometry_roundtrip_iter (g : Geom Int) (h : geomWF g = true) (hd : geomN
         rcases List.mem_cons.mp hr with rfl | hr'
         · exact h.1.1
         · exact (h.2 r hr').1
-    obtain ⟨c', ws, he, hne, hdec⟩ := decode_rings p (polyOK_ne_nil h) hall a
+    obtain ⟨c', ws, he, hne, hdec⟩ := decode_rings ori p (polyOK_ne_nil h) hall hori a
     refine ⟨tPolygon, ws, ?_, hne, ?_⟩
     · simp [encodeGeometry, he, Res.map]
     · rw [hdec, grp_poly_first h]
@@ -482,10 +489,47 @@ theorem geometry_roundtrip_iter (g : Geom Int) (h : geomWF g = true) (hd : geomN
         cases q with
         | nil => exact absurd rfl this
         | cons _ _ => simp
-      obtain ⟨c', ws, he, hne, hdec⟩ := decode_rings (q :: qs).flatten hfne hall a
+      obtain ⟨c', ws, he, hne, hdec⟩ := decode_rings ori (q :: qs).flatten hfne hall hori a
       refine ⟨tPolygon, ws, ?_, hne, ?_⟩
       · simp only [encodeGeometry, encPolys_eq_flatten, he, Res.map]
       · rw [hdec, grpFin_polys q qs hpoly]
+
+/-- … in particular with the exact orientation. -/
+theorem geometry_roundtrip_iter (g : Geom Int) (h : geomWF g = true) (hd : geomNoDupClose g = true) (a : Nat) :
+    ∃ t ws, encodeGeometry g = .ok (t, ws) ∧ ws ≠ [] ∧
+      (decodeGeometryIter oriInt t ws a).1 = .ok (normG g) :=
+  geometry_roundtrip_iter_ori oriInt g h hd (fun _ _ => rfl) a
+
+/-- The geometry round trip for the decoder run with ANY orientation function `ori` (Go: the
+    float64 shoelace) that gives the exact sign on the rings of `g`. -/
+theorem geometry_roundtrip_ori' (ori : List (Pt Int) → Int) (g : Geom Int) (h : geomWF g = true)
+    (hd : geomNoDupClose g = true) (hori : ∀ r ∈ ringsOf g, ori r = oriInt r) :
+    ∃ t ws, encodeGeometry g = .ok (t, ws) ∧ (decodeGeometryIter ori t ws 0).1 = .ok (normG g) := by
+  obtain ⟨t, ws, he, _, hdec⟩ := geometry_roundtrip_iter_ori ori g h hd hori 0
+  exact ⟨t, ws, he, hdec⟩
+
+/-! ### `Closed()` decided by Go on the float64 points (`encRingG`, `reopen`) -/
+
+theorem encRing_eq_encRingG' (c : Cur) (r : List (Pt Int)) : encRing c r = encRingG (closed r) c r := by
+  cases r <;> rfl
+
+theorem closed_reopen {r : List (Pt Int)} (h : closed r = true) : closed (reopen r) = true := by
+  obtain ⟨p, rest, rfl, hne, _, _⟩ := closed_cons h
+  rw [closed_iff] at h ⊢
+  refine ⟨by simp only [reopen, List.length_append, List.length_singleton]; omega, ?_⟩
+  show (p :: rest ++ [p]).head? = (p :: rest ++ [p]).getLast?
+  rw [List.getLast?_append]
+  simp
+
+/-- Float-open but truncation-closed: the command stream is that of the truncated ring with its
+    first vertex appended once more. -/
+theorem encRingG_false_eq_reopen' (c : Cur) {r : List (Pt Int)} (h : closed r = true) :
+    encRingG false c r = encRing c (reopen r) := by
+  have hcr := closed_reopen h
+  obtain ⟨p, rest, rfl, hne, _, _⟩ := closed_cons h
+  have hdl : (rest ++ [p]).dropLast = rest := by simp
+  simp only [reopen, List.cons_append] at hcr ⊢
+  simp only [encRing, encRingG, hcr, if_true, hdl, Bool.false_eq_true, if_false]
 
 theorem geometry_roundtrip_partial' (g : Geom Int) (h : geomWF g = true) (hd : geomNoDupClose g = true) :
     geometryRT g = .ok (normG g) := by
